@@ -14,6 +14,7 @@ CONSTANTS
   SyncStarts = {0}
   SyncEnds = {0}
   CapZeroUnbounded = FALSE
+  LastUncapped = FALSE
   Depth = 25
 INVARIANT Emit
 CHECK_DEADLOCK FALSE
